@@ -1709,7 +1709,10 @@ class DocutilsRenderer(RendererProtocol):
         MockRSTParser().parse(pseudosource, newdoc)
         for node in newdoc:
             if node["names"]:
-                self.document.note_explicit_target(node, node)
+                # (a duplicate-name message cannot go inside a target:
+                # docutils requires block-level targets to be empty)
+                msgnode = self.current_node if isinstance(node, nodes.target) else node
+                self.document.note_explicit_target(node, msgnode)
         self.current_node.extend(newdoc.children)
 
     def render_directive(
